@@ -69,3 +69,28 @@ theorem lookupSpec_perm {κ : Type} (m : κ → Bool) (e1 e2 : List (κ × Store
         | cons d ds => rfl
 
 end Desync.StoreOpts
+
+namespace Desync.StoreOpts
+
+theorem dropWhile_ne_append (sep : UInt8) (n rest : Bytes) (h : sep ∉ n) :
+    (n ++ sep :: rest).dropWhile (· ≠ sep) = sep :: rest := by
+  induction n with
+  | nil => simp [List.dropWhile]
+  | cons a as ih =>
+    have ha : a ≠ sep := fun e => h (by simp [e])
+    have has : sep ∉ as := fun m => h (by simp [m])
+    have := ih has
+    simp only [List.cons_append, List.dropWhile_cons, ne_eq, ha, not_false_eq_true, decide_true, if_true]
+    simpa using this
+
+/-- everything before the last separator of `s ++ [sep] ++ n`, `n` free of separators, is `s` -/
+theorem beforeLast_append (sep : UInt8) (s n : Bytes) (h : sep ∉ n) :
+    beforeLast sep (s ++ [sep] ++ n) = some s := by
+  unfold beforeLast
+  have hc : (s ++ [sep] ++ n).contains sep = true := by simp
+  rw [if_pos hc]
+  have hr : (s ++ [sep] ++ n).reverse = n.reverse ++ sep :: s.reverse := by simp
+  rw [hr, dropWhile_ne_append sep n.reverse s.reverse (by simpa using h)]
+  simp
+
+end Desync.StoreOpts
